@@ -1244,6 +1244,12 @@ private:
         };
 
         const auto& fields = request.fields;
+        // Authenticate before touching any node state or the filesystem, whatever the delivery mode.
+        if (auto denied = check_control_token(fields, "ERR_FETCH_UNAUTHENTICATED")) {
+            respond_error(std::move(*denied), "auth", true, false);
+            return;
+        }
+
         const auto manifest_it = fields.find("MANIFEST");
         if (manifest_it == fields.end()) {
             auto error = make_error("ERR_FETCH_MANIFEST_REQUIRED",
